@@ -37,7 +37,7 @@ func c11Setup() string {
 		base = filepath.Join(verifHome(), ".build")
 	}
 	dir := filepath.Join(base, fmt.Sprintf("scratch-%d", os.Getpid()))
-	for _, d := range []string{"r/s/sub", "r/t/u", "r/s2"} {
+	for _, d := range []string{"r/s/sub", "r/t/u", "r/s2", "sp acé/r/s/sub", "sp acé/r/t/u", "sp acé/r/s2"} {
 		if err := os.MkdirAll(filepath.Join(dir, d), 0o755); err != nil {
 			panic(harnessBug{err.Error()})
 		}
@@ -169,15 +169,18 @@ func c11RunCase(c *Ctx, raw []byte) string {
 
 func c11Exec(c *Ctx, cs c11Case) string {
 	S := c11Setup()
-	prefix := map[string]string{"file": "file://" + S, "http": "http://h", "https": "https://h:8443"}[cs.Site]
+	prefix := map[string]string{"file": "file://" + S, "filesp": "file://" + S + "/" + c11SpEsc, "http": "http://h", "https": "https://h:8443"}[cs.Site]
 	g := c11Graphs()[cs.Graph]
 	b, canonical := c11Universe(g, prefix)
 	verifrt.Reset(nil, false)
 	wd := S
+	if cs.Site == "filesp" && cs.Chdir != "/" {
+		wd = filepath.Join(S, c11SpRaw)
+	}
 	if cs.Chdir == "/" {
 		wd = "/"
 	} else if cs.Chdir != "" {
-		wd = filepath.Join(S, cs.Chdir)
+		wd = filepath.Join(wd, cs.Chdir)
 	}
 	os.Chdir(S)
 	// own the working-directory history: a relative location has already been normalised elsewhere
@@ -186,6 +189,7 @@ func c11Exec(c *Ctx, cs c11Case) string {
 	ref := c11Call(b, cs.Fn, canonical, cs.Skip)
 	os.Chdir(wd)
 	loc := strings.ReplaceAll(cs.Spelling, "<S>", S)
+	loc = strings.ReplaceAll(loc, "<S-rel>", strings.TrimPrefix(S, "/"))
 	got := c11Call(b, cs.Fn, loc, cs.Skip)
 	os.Chdir(S)
 	outcome := "ok"
@@ -236,6 +240,9 @@ func c11Exec(c *Ctx, cs c11Case) string {
 	return outcome
 }
 
+// the "filesp" site: the same file tree below a directory whose name needs escaping in a URL
+const c11SpRaw, c11SpEsc = "sp acé", "sp%20ac%C3%A9"
+
 // spellings: breadth-first over rewrites of the canonical location.
 type c11Spelling struct {
 	text     string // with <S> for the scratch directory
@@ -245,9 +252,19 @@ type c11Spelling struct {
 
 func c11Spellings(site string, depth int) []c11Spelling {
 	canonPath := "<S>/r/s/root.json"
-	head := map[string]string{"file": "file://", "http": "http://h", "https": "https://h:8443"}[site]
+	head := map[string]string{"file": "file://", "filesp": "file://", "http": "http://h", "https": "https://h:8443"}[site]
 	if site != "file" {
 		canonPath = "/r/s/root.json"
+	}
+	if site == "filesp" {
+		canonPath = "<S>/<SP>/r/s/root.json" // <SP> is written escaped in a URL and raw in a bare path
+		site = "file"
+	}
+	render := func(head, p string) string {
+		if head == "" {
+			return strings.ReplaceAll(p, "<SP>", c11SpRaw)
+		}
+		return strings.ReplaceAll(p, "<SP>", c11SpEsc)
 	}
 	type st struct {
 		head, p, tail string
@@ -264,7 +281,7 @@ func c11Spellings(site string, depth int) []c11Spelling {
 			return false
 		}
 		seen[k] = true
-		out = append(out, c11Spelling{s.head + s.p + s.tail, s.chdir, s.rw})
+		out = append(out, c11Spelling{s.head + render(s.head, s.p) + s.tail, s.chdir, s.rw})
 		return true
 	}
 	emit(start)
@@ -287,6 +304,9 @@ func c11Spellings(site string, depth int) []c11Spelling {
 					if segs[i] == "" || strings.HasPrefix(strings.Join(segs[:i+1], "/"), "<S>") && !strings.HasPrefix(strings.Join(segs[:i], "/"), "<S>") {
 						continue
 					}
+					if segs[i] == "<SP>" {
+						continue // the rewrites go after the scratch prefix
+					}
 					pre, post := strings.Join(segs[:i], "/"), strings.Join(segs[i:], "/")
 					n := s
 					n.p = pre + "/./" + post
@@ -304,6 +324,10 @@ func c11Spellings(site string, depth int) []c11Spelling {
 				if site == "file" {
 					n.tail = "?q=1"
 					add(n, "query")
+					n.tail = "?"
+					add(n, "empty-query")
+					n.tail = "?#frag"
+					add(n, "empty-query+fragment")
 				}
 			}
 			if site == "file" && s.chdir == "" {
@@ -354,7 +378,7 @@ func c11Run(c *Ctx) {
 	graphs := c11Graphs()
 	fns := []string{"ExpandSpec", "ExpandSchemaWithBasePath", "ResolveRefWithBase", "ExpandParameter", "ExpandResponse"}
 	n := 0
-	for _, site := range []string{"file", "http", "https"} {
+	for _, site := range []string{"file", "filesp", "http", "https"} {
 		sp := c11Spellings(site, depth)
 		c.Count("spellings_"+site, 0)
 		if c.Shard == 0 {
@@ -372,10 +396,7 @@ func c11Run(c *Ctx) {
 			if len(s.rewrites) > 0 {
 				c.Res.Nontrivial++
 			}
-			text := s.text
-			if strings.Contains(text, "<S-rel>") {
-				text = strings.Replace(text, "<S-rel>", strings.TrimPrefix(c11Setup(), "/"), 1)
-			}
+			text := s.text // <S> and <S-rel> stand for the scratch directory of the executing process
 			for gi := range graphs {
 				for _, fn := range fns {
 					if (fn == "ExpandParameter" || fn == "ExpandResponse") && graphs[gi].Entry != entAll {
@@ -410,7 +431,7 @@ func c11Run(c *Ctx) {
 func init() {
 	register(&CheckDef{
 		ID: "C11", Build: "instr", Run: c11Run, RunCase: c11RunCase,
-		Rule:        "states = every spelling reachable from a canonical root location (file below a real scratch directory, http, https) by <= k rewrites: ./ or x/../ before any segment, a doubled slash, bare path / file:/ / file:/// forms, upper-case scheme, trailing fragment, trailing query (file), relative spelling against four working directories (the worker really changes directory); each used as RelativeBase / base path of ExpandSpec (with and without SkipSchemas), ExpandSchemaWithBasePath, ResolveRefWithBase, ExpandParameter, ExpandResponse on 5 multi-document graphs; oracle = same error, same output and same set of requested URLs as the canonical spelling, every requested URL absolute, clean and fragment-free, normalisation idempotent",
+		Rule:        "states = every spelling reachable from a canonical root location (file below a real scratch directory, file below a directory whose name holds a space and a non-ASCII letter - escaped in URL spellings, raw in bare paths -, http, https) by <= k rewrites: ./ or x/../ before any segment, a doubled slash, bare path / file:/ / file:/// forms, upper-case scheme, trailing fragment, trailing query, also an empty one (file), relative spelling against four working directories (the worker really changes directory); each used as RelativeBase / base path of ExpandSpec (with and without SkipSchemas), ExpandSchemaWithBasePath, ResolveRefWithBase, ExpandParameter, ExpandResponse on 5 multi-document graphs; oracle = same error, same output and same set of requested URLs as the canonical spelling, every requested URL absolute, clean and fragment-free, normalisation idempotent",
 		Assumptions: []string{"a doubled *leading* slash, host case and default ports are not among the rewrites the statement lists", "map iteration order is fixed (sorted) so that outputs of cyclic graphs are comparable"},
 		MinOutcomes: 1,
 	})
